@@ -99,6 +99,25 @@ impl Engine {
         self.read_until_readyok(watchdog)
     }
 
+    /// Injected delay: stop the process (SIGSTOP) for `ms` milliseconds of wall time, then let it go on.
+    /// Nothing it computes may depend on that; only wall-clock deadlines see it.
+    pub fn pause(&self, ms: u64) {
+        let pid = self.pid.to_string();
+        let _ = Command::new("kill").args(["-STOP", &pid]).status();
+        std::thread::sleep(Duration::from_millis(ms));
+        let _ = Command::new("kill").args(["-CONT", &pid]).status();
+    }
+
+    /// Send one command followed by `isready`, pause the process for `pause_ms` after `after_ms`, and
+    /// return what was printed before `readyok`.
+    pub fn command_with_pause(&mut self, line: &str, after_ms: u64, pause_ms: u64, watchdog: Duration) -> Result<Vec<String>, Fail> {
+        self.send(line)?;
+        self.send("isready")?;
+        std::thread::sleep(Duration::from_millis(after_ms));
+        self.pause(pause_ms);
+        self.read_until_readyok(watchdog)
+    }
+
     /// utime + stime of the process in milliseconds
     pub fn cpu_ms(&self) -> u64 {
         cpu_ms_of(self.pid)
